@@ -45,9 +45,9 @@ class ColumnLineageMixin:
                     path = [
                         node for node in path if not isinstance(node.parent, SubQuery)
                     ]
-                    if len(path) > 1:
-                        columns.add(tuple(path))
-                else:
+                # a column that nothing feeds and that feeds nothing is both source and target,
+                # the one-node path it yields is not a lineage
+                if len(path) > 1:
                     columns.add(tuple(path))
         return columns
 
